@@ -17,8 +17,9 @@ sys.path.insert(0, HERE)
 
 from common import NPROC, ddmin, run_model  # noqa: E402
 from streams import ws as wsmod  # noqa: E402
+from streams import wsreader as wsrmod  # noqa: E402
 
-STREAMS = {s.name: s for s in wsmod.STREAMS}
+STREAMS = {s.name: s for s in wsmod.STREAMS + wsrmod.STREAMS}
 
 
 def shard(args):
